@@ -431,3 +431,48 @@ def struct_local(body, ty_prefix):
 
 def field_place(local, adt, name):
     return [local, [['f', 0, name, adt, '-']]]
+
+
+def returned_comparisons(F, body):
+    """[(bb, fact)] for a bool-returning body that hands back a comparison directly (`x >= y` as the tail expression of an arm,
+    not `if x >= y { true } else { false }`): fact = the relation that holds exactly when that return value is true"""
+    out = []
+    if body.locals[0]['ty'] != 'bool':
+        return out
+    for bi, bl in enumerate(body.blocks):
+        if bl['cl']:
+            continue
+        for si, st in enumerate(bl['s']):
+            if st[0] == 'a' and st[1] == [0, []] and not (st[2][0] == 'use' and st[2][1][0] == 'k'):
+                node = F.origin.rvalue(body, st[2], bi, si, 0, None)
+                for f in bool_facts(node, True):
+                    if f[0] == 'rel':
+                        out.append((bi, f))
+        t = bl['t']
+        if t[0] == 'call' and t[3] == [0, []]:
+            node = F.origin.call_node(body, t, bi, 0, None)
+            for f in bool_facts(node, True):
+                if f[0] == 'rel':
+                    out.append((bi, f))
+    return out
+
+
+def dhcp_t12_body(F, b):
+    """where the DHCP client chooses (T1, T2): parse_ack itself, or a helper of socket::dhcpv4 it calls that hands back a
+    (Duration, Duration).  -> (body, {arg index: origin of the actual argument in parse_ack})"""
+    def has_sites(x):
+        for bl in x.blocks:
+            if bl['cl']:
+                continue
+            for s in bl['s']:
+                if s[0] == 'a' and s[2][0] == 'agg' and s[2][1].get('k') == 'tuple' and len(s[2][2]) == 2 and \
+                        all(is_place_op(o) and x.locals[o[1][0]]['ty'] == 'time::Duration' for o in s[2][2]):
+                    return True
+        return False
+    if has_sites(b):
+        return b, {}
+    for bi, c, args, dest, tgt, ln in b.calls():
+        cb = F.bodies.get(b.callee_name(c))
+        if cb is not None and cb.key.startswith('socket::dhcpv4::') and cb.locals[0]['ty'] == '(time::Duration, time::Duration)' and has_sites(cb):
+            return cb, {i + 1: simplify(F.origin.operand(b, a, bi, len(b.blocks[bi]['s']))) for i, a in enumerate(args)}
+    return b, {}
